@@ -13,7 +13,7 @@
 (*       enc : "none"|"gzip"|"unknown", theader : "none"|"connect"|"grpc",  *)
 (*       timeout : Seq(CHAR), body, limit]                                  *)
 (***************************************************************************)
-EXTENDS Integers, Sequences, FiniteSets, TLC
+EXTENDS Integers, Sequences, FiniteSets, TLC, TimeoutGrammar
 
 VARIABLES sc, pc, r
 vars == <<sc, pc, r>>
@@ -30,31 +30,7 @@ ProtoOf(s) == IF s.ctype \in ConnectCTs(s) THEN "connect"
               ELSE IF s.ctype \in GrpcCTs(s) THEN "grpc"
               ELSE IF s.ctype \in WebCTs(s) THEN "grpcweb" ELSE "none"
 
-(* ---- timeout grammar (protocol_connect.go SetTimeout, protocol_grpc.go grpcParseTimeout) ---- *)
-Digits == {"0", "1", "2", "3", "4", "5", "6", "7", "8", "9"}
-DigitVal(c) == CASE c = "0" -> 0 [] c = "1" -> 1 [] c = "2" -> 2 [] c = "3" -> 3 [] c = "4" -> 4
-                 [] c = "5" -> 5 [] c = "6" -> 6 [] c = "7" -> 7 [] c = "8" -> 8 [] c = "9" -> 9
-RECURSIVE Num(_, _)
-Num(s, n) == IF n = 0 THEN 0 ELSE Num(s, n - 1) * 10 + DigitVal(s[n])     \* value of the first n digits
-AllDigits(s, n) == \A i \in 1..n : s[i] \in Digits
-Units == {"H", "M", "S", "m", "u", "n"}
-\* gRPC: 1..8 digits followed by a unit
-GrpcGrammatical(t) == Len(t) \in 2..9 /\ AllDigits(t, Len(t) - 1) /\ t[Len(t)] \in Units
-\* Connect: 1..10 digits of milliseconds
-ConnectGrammatical(t) == Len(t) \in 1..10 /\ AllDigits(t, Len(t))
-\* the deadline a grammatical timeout stands for, in milliseconds; "unbounded" if it cannot be represented,
-\* "big" when the model's 32-bit integers cannot hold it (the check is then only "at least 2^30 ms or none")
-DL(k, ms) == [k |-> k, ms |-> ms]
-GrpcMillis(t) ==
-  LET n == Num(t, Len(t) - 1) u == t[Len(t)] IN
-  IF u = "H" THEN (IF n > 2562047 THEN DL("unbounded", 0) ELSE IF n > 250 THEN DL("big", 0) ELSE DL("ms", n * 3600000))
-  ELSE IF u = "M" THEN (IF n > 15000 THEN DL("big", 0) ELSE DL("ms", n * 60000))
-  ELSE IF u = "S" THEN (IF n > 1000000 THEN DL("big", 0) ELSE DL("ms", n * 1000))
-  ELSE IF u = "m" THEN DL("ms", n)
-  ELSE IF u = "u" THEN DL("ms", n \div 1000)
-  ELSE DL("ms", n \div 1000000)
-ConnectMillis(t) == IF Len(t) = 10 THEN DL("big", 0) ELSE DL("ms", Num(t, Len(t)))
-
+(* ---- timeout grammar: TimeoutGrammar.tla ---- *)
 Relevant(s) == (ProtoOf(s) = "connect" /\ s.theader = "connect") \/ (ProtoOf(s) \in {"grpc", "grpcweb"} /\ s.theader = "grpc")
 TimeoutOK(s) == ~Relevant(s) \/ Len(s.timeout) = 0 \/
                 (IF s.theader = "connect" THEN ConnectGrammatical(s.timeout) ELSE GrpcGrammatical(s.timeout))
